@@ -636,11 +636,20 @@ func (s String) Count(args Tuple) (Object, error) {
 		end  = int(pyend.(Int))
 		size = s.len()
 	)
+	if beg < 0 {
+		beg += size
+		if beg < 0 {
+			beg = 0
+		}
+	}
 	if beg > size {
 		beg = size
 	}
 	if end < 0 {
-		end = size
+		end += size
+		if end < 0 {
+			end = 0
+		}
 	}
 	if end > size {
 		end = size
@@ -670,11 +679,20 @@ func (s String) find(args Tuple) (Object, error) {
 		end  = int(pyend.(Int))
 		size = s.len()
 	)
+	if beg < 0 {
+		beg += size
+		if beg < 0 {
+			beg = 0
+		}
+	}
 	if beg > size {
 		beg = size
 	}
 	if end < 0 {
-		end = size
+		end += size
+		if end < 0 {
+			end = 0
+		}
 	}
 	if end > size {
 		end = size
